@@ -76,6 +76,12 @@ CLAIMED = {
              "RawArgs cursor against an index model: one operation from an arbitrary reachable state (inductive step) plus symbolic op sequences up to 3-5; insert from concrete index states.",
         note="Bounds in evidence. insert with symbolic index is beyond CBMC (17-24 GB) and is checked from each of the 6 concrete index states of a 3-item list.",
         ref="2 C14"),
+    "C18": dict(
+        text="PARTIAL (thin). Solver-decided (MIR->SMT, z3 + cvc5) panic- and overflow-freedom of ONE iteration of clap_complete::engine::complete's shadow-parse loop from an ARBITRARY state "
+             "(parse state, positional index, escape flag, current command havoc'd), with parse_positional / parse_opt_value executed from their own MIR and opt_allows_hyphen / pos_allows_hyphen inlined. "
+             "Nothing is claimed about which candidates are offered (complete_arg and below are opaque) or about the shell adapters.",
+        note="One loop body as a MIR fragment; callees other than the four helpers are opaque pure values; counters bounded by 2^48; candidates are realised by /verif/native/c18 through the public API.",
+        ref="2 C18", technique="own MIR->SMT translation of a loop body (bit-vectors), z3 + cvc5, native replay"),
     "C20": dict(
         text="PARTIAL. (Kani) width accounting (display_width vs an ANSI-skip reference) and word splitting (find_words_ascii_space: consecutive non-empty pieces, cuts only at space->non-space) "
              "for EVERY ASCII string up to the length bound. (MIR->SMT) the loop BODY of LineWrapper::wrap equals the reference step from an arbitrary state (running width restarts from the re-emitted "
@@ -91,7 +97,6 @@ NOT_APPLICABLE = {
     "C15": "proc-macro translation running inside rustc plus generated code over a built Command: neither reachable by Kani nor a loop-free scalar kernel for the MIR->SMT engine",
     "C16": "every generator starts with cmd.build(); 'accepted by bash' is a statement about an external interpreter",
     "C17": "escapers are chains of String::replace: one symbolic char through fish's two replaces exceeded 10 GB/10 min; SMT string theory gave unknown; call sites need a built command",
-    "C18": "complete() builds the command first and keeps its state machine inline; pieces have preconditions only that loop establishes",
     "C19": "Man::render walks a built command; text escaping lives in the third-party roff crate",
 }
 
@@ -128,7 +133,7 @@ def main():
         "engines": [
             {"name": "kani", "path": "/verif/runner/kani.py", "serves_properties": sorted(p for p in CLAIMED if p != "C12"),
              "kind_free_text": "Kani 0.68/CBMC 6.11 harnesses (kani/lex external crate; harness/*.rs included into clap_builder under cfg clap_verif); counterexamples replayed natively via concrete playback"},
-            {"name": "mirsmt", "path": "/verif/runner/mir_check.py", "serves_properties": ["C02", "C03", "C04", "C05", "C06", "C10", "C12", "C20"],
+            {"name": "mirsmt", "path": "/verif/runner/mir_check.py", "serves_properties": ["C02", "C03", "C04", "C05", "C06", "C10", "C12", "C18", "C20"],
              "kind_free_text": "MIR (cargo +nightly rustc -Zunpretty=mir, overflow checks on) of loop-free scalar functions -> SMT-LIB2 bit-vector queries (mirsmt/*.py), decided by z3 and cvc5; candidates realised by a native #[test] in the harness module"},
         ],
         "checks": checks,
